@@ -5,8 +5,8 @@ Suites
              of external steps (time, ops).  Callbacks are harness closures that record (time, id, kwargs) and then
              run their script re-entrantly on the same manager.  The loop's order of firing is observed and handed
              to the model as `Fire u` steps (the model accepts a Fire only if it is a legal choice).
-  periodic : PeriodicTask via clock.schedule_interval, with simulated late wake-ups, cancel at/around deadlines.
-  timer    : the timer device (mode-less machine timer): tick/complete logic against a direct oracle.
+  periodic : the real PeriodicTask class on a minimal scheduler that wakes up late (time() > deadline inside _run),
+             cancel at/around deadlines.
 """
 import functools
 import math
@@ -20,14 +20,13 @@ RULE = ("delay: 1-6 external steps of 1-4 DelayManager ops (add/add_if_doesnt_ex
         "of further ops re-entrantly (re-add own name, remove/run_now others, self-rescheduling chains); external steps "
         "are placed on deadlines half of the time; non-trivial = at least one callback ran and at least one handle was "
         "cancelled or one op executed inside a callback.  periodic: interval/t0/cancel time incl. cancel exactly on a "
-        "deadline and callbacks that let time pass; non-trivial = at least 2 ticks.  timer: control sequences on a "
-        "timer device; non-trivial = at least one tick and one control op after start")
+        "deadline (both orders) and a scheduler that wakes up late; non-trivial = at least 2 ticks")
 TRUSTED_BASE = [
     "Coq 8.16.1 kernel (coqc), vm_compute for evaluating the model in the correspondence run and for the refutation witness; no native_compute",
     "axioms: none (every Print Assumptions is 'Closed under the global context')",
     "hand-written model coq/C13/Model.v tied to the working tree by correspondence: harness/props/c13.py runs the real "
-    "DelayManager / PeriodicTask on mpf's TimeTravelLoop and the model on the same histories; the loop's choice among "
-    "due handles is observed and validated by the model, not predicted",
+    "DelayManager on mpf's TimeTravelLoop (PeriodicTask on a minimal late-waking scheduler) and the model on the same "
+    "histories; the loop's choice among due handles is observed and validated by the model, not predicted",
     "CPython asyncio (BaseEventLoop._run_once, TimerHandle.cancel) and mpf/tests/loop.py TimeTravelLoop as the scheduler "
     "the handles run on; observation of handle state through TimerHandle.cancelled() and loop._scheduled/_ready",
     "the Python oracle in harness/props/c13.py (spec pass over the implementation's own event log)",
@@ -35,11 +34,12 @@ TRUSTED_BASE = [
 ASSUMPTIONS = [
     "durations are non-negative integers of milliseconds; instants are exact (1/8 s grid) or compared after rounding to microseconds",
     "the harness callbacks do not raise; nesting depth of run_now inside callbacks is cut at 6 (harness and model alike)",
-    "the timer device is covered by a direct oracle and a small model of ticks/complete only (no player variables, no placeholders)",
+    "the timer device (mpf/devices/timer.py) is NOT covered (see coq/C13/NOTES.md); Mode.stop -> delay.clear() is read, not tied",
 ]
 
 NAMES = ["a", "b", "c"]
 MAXD = 6
+MAXEV = 4000      # runaway guard: a case whose log grows beyond this is cut (and reported by the oracle)
 _RIG = {}
 
 
@@ -147,6 +147,7 @@ def run_delay(case):
     dm = DelayManager(rig.machine)
     S = _Run()
     S.next, S.depth, S.handles, S.live, S.codes, S.log, S.steps = 0, 0, {}, set(), {}, [], []
+    S.dead = False    # set at the end of the case / on runaway: closures of this case become no-ops
     t0 = _align(rig, loop)
 
     def now():
@@ -171,6 +172,12 @@ def run_delay(case):
 
     def make_cb(u, cbid):
         def cb(**kwargs):
+            if S.dead:
+                return
+            if len(S.log) > MAXEV:
+                S.dead = True
+                S.log.append(["runaway"])
+                return
             scan_kills()
             h = S.handles[u]
             rn = bool(h.cancelled())
@@ -195,6 +202,8 @@ def run_delay(case):
 
     def do(o):
         k = o[0]
+        if S.dead:
+            return
         if k in ("add", "addif", "reset"):
             _, ms, n, cbid, kw = o
             S.log.append(["op", k, n])
@@ -240,6 +249,7 @@ def run_delay(case):
                 do(o)
             S.log.append(["dict", [S.codes.get(k, 999) for k in dm.delays.keys()]])
     finally:
+        S.dead = True
         dm.clear()
     if rig.exception():
         return {"log": S.log, "steps": S.steps, "exc": repr(rig.exception())[:300]}
@@ -280,7 +290,7 @@ def _cev(e):
 
 
 def coq_delay(case, out):
-    if "exc" in out:
+    if "exc" in out or ["runaway"] in out["log"][-3:] or any(e[0] == "runaway" for e in out["log"]):
         return None
     scripts = coqlist(coqlist(_cop(o) for o in s) for s in case["scripts"])
     steps = coqlist(("(Ext %s %s)" % (zlit(s[1]), coqlist(_cop(o) for o in s[2]))) if s[0] == "ext"
@@ -307,6 +317,9 @@ def oracle_delay(case, out):
     tnow = 0
     for e in out["log"]:
         k = e[0]
+        if k == "runaway":
+            fail("runaway", "more than %d events in one case: callbacks keep firing" % MAXEV)
+            break
         if k == "ext":
             if e[1] != e[2]:
                 fail("clock", "virtual clock at %d, wanted %d" % (e[2], e[1]))
@@ -430,7 +443,7 @@ def gen_periodic(rng, tier, i):
     else:
         ival = rng.choice([rng.randint(20, 900) * 1000, 100000, 333000, 16667])
     n = rng.choice([0, 1, 2, 3, 5, 8, 13, 40])
-    # cancel exactly on a deadline, or somewhere in the second half of an interval
+    # cancel exactly on a deadline, or somewhere in the second half of an interval (late wake-ups stay below ival/3)
     r = rng.random()
     if r < 0.4:
         cancel = n * ival
@@ -439,42 +452,70 @@ def gen_periodic(rng, tier, i):
     else:
         cancel = None
     horizon = (cancel if cancel is not None else n * ival) + rng.choice([0, ival, 2 * ival + ival // 2, 5 * ival])
-    lag = rng.choice([0, 0, ival // 4, ival // 3])
-    return {"ival": ival, "cancel": cancel, "horizon": horizon, "lag": lag, "grid": grid}
+    lates = rng.choice([[0], [0], [ival // 4], [0, ival // 3, 1, ival // 8], [ival // 8, 0, 0]])
+    if cancel is not None and cancel % ival == 0 and not rng.random() < 0.5:
+        tick_first = False
+    else:
+        tick_first = True
+    return {"ival": ival, "cancel": cancel, "horizon": horizon, "lates": lates, "grid": grid, "tick_first": tick_first}
+
+
+class _LateLoop:
+    """The two methods PeriodicTask needs from a loop, on a scheduler that may wake up late: a handle with deadline
+    `when` runs at `when + late` (late >= 0 taken from the case), so that _run sees time() > deadline."""
+
+    def __init__(self, t0):
+        self.t = t0
+        self.h = []
+
+    def time(self):
+        return self.t
+
+    def call_at(self, when, cb, *args):
+        self.h.append((when, cb))
 
 
 def run_periodic(case):
-    rig = _RIG["rig"]
-    loop = rig.machine.clock.loop
-    t0 = _align(rig, loop)
+    from mpf.core.clock import PeriodicTask
+    t0 = 1000.0
+    loop = _LateLoop(t0)
     ival = case["ival"]
-    calls = []
-    order = []
+    lates = case["lates"]
+    calls, order, cur = [], [], [None]
 
-    def now():
-        return int(round((loop.time() - t0) * 1e6))
+    def us(x):
+        return int(round((x - t0) * 1e6))
 
     def cb():
-        calls.append(now())
-        order.append("run")
-        if case["lag"]:
-            # the callback takes time / the loop woke up late: time passes before _schedule() runs
-            loop.advance_time(case["lag"] / 1e6)
+        calls.append(us(cur[0]))
 
-    pt = rig.machine.clock.schedule_interval(cb, ival / 1e6)
-    try:
-        if case["cancel"] is not None:
-            d = t0 + case["cancel"] / 1e6 - loop.time()
-            rig.advance(d if d > 0 else 0)
-            order.append("cancel")
-            pt.cancel()
-        d = t0 + case["horizon"] / 1e6 - loop.time()
-        rig.advance(d if d > 0 else 0)
-        order.append("at")
-        nxt = int(round((pt.get_next_call_time() - t0) * 1e6))
-    finally:
+    pt = PeriodicTask(ival / 1e6, loop, cb)
+
+    def run_until(t_us, inclusive):
+        n = 0
+        while loop.h and n < 10000:
+            when, f = min(loop.h, key=lambda x: x[0])
+            w = us(when)
+            if w > t_us or (w == t_us and not inclusive):
+                break
+            loop.h.remove((when, f))
+            loop.t = max(loop.t, when + lates[len(order) % len(lates)] / 1e6)
+            cur[0] = when
+            order.append("run")
+            n += 1
+            f()
+
+    if case["cancel"] is not None:
+        run_until(case["cancel"], case["tick_first"])
+        loop.t = max(loop.t, t0 + case["cancel"] / 1e6)
+        order.append("cancel")
         pt.cancel()
-    return {"calls": calls, "order": order, "next": nxt}
+    run_until(case["horizon"], True)
+    loop.t = max(loop.t, t0 + case["horizon"] / 1e6)
+    order.append("at")
+    nxt = us(pt.get_next_call_time())
+    pt.cancel()
+    return {"calls": calls, "order": order, "next": nxt, "pending": sorted(us(w) for w, _ in loop.h)}
 
 
 def coq_periodic(case, out):
@@ -485,16 +526,7 @@ def coq_periodic(case, out):
         elif o == "cancel":
             steps.append("(PCancel %s)" % zlit(case["cancel"]))
         else:
-            # after a cancel the loop still runs the (silent) handle if it became due before the horizon
             steps.append("(PAt %s)" % zlit(case["horizon"]))
-    # the silent _run after cancel is not observable through callbacks: it is visible in get_next_call_time()
-    silent = 0
-    if case["cancel"] is not None:
-        k = len(out["calls"])
-        if out["next"] == (k + 2) * case["ival"]:
-            silent = 1
-    if silent:
-        steps.insert(len(steps) - 1, "PRun")
     exp = "(%s, %s)" % (coqlist("(PCalled %s)" % zlit(t) for t in out["calls"]), zlit(out["next"]))
     return "((0, %s, %s), %s)" % (zlit(case["ival"]), coqlist(steps), exp)
 
@@ -520,8 +552,8 @@ def oracle_periodic(case, out):
 
 
 def shrink_periodic(case):
-    if case["lag"]:
-        yield dict(case, lag=0)
+    if case["lates"] != [0]:
+        yield dict(case, lates=[0])
     if case["cancel"] is not None and case["cancel"] >= case["ival"]:
         yield dict(case, cancel=case["cancel"] - case["ival"], horizon=case["horizon"] - case["ival"])
     if case["horizon"] - case["ival"] >= (case["cancel"] or 0):
@@ -535,8 +567,8 @@ SUITES = [
     Suite("delay", gen_delay, run_delay, HDR_DELAY, coq_delay, oracle_delay, shrink_delay, nontrivial_delay,
           {"quick": 4000, "thorough": 120000}, worker_init=_init_rig, shard=250, describe=describe_delay),
     Suite("periodic", gen_periodic, run_periodic, HDR_PERIODIC, coq_periodic, oracle_periodic, shrink_periodic,
-          lambda c, o: len(o.get("calls", [])) >= 2, {"quick": 1000, "thorough": 30000}, worker_init=_init_rig,
-          shard=500, describe=lambda c: ("grid" if c["grid"] else "ms") + (" lag" if c["lag"] else "") +
+          lambda c, o: len(o.get("calls", [])) >= 2, {"quick": 1000, "thorough": 30000},
+          shard=500, describe=lambda c: ("grid" if c["grid"] else "ms") + (" late" if c["lates"] != [0] else "") +
           (" nocancel" if c["cancel"] is None else " cancel@deadline" if c["cancel"] % c["ival"] == 0 else " cancel")),
 ]
 
@@ -550,7 +582,6 @@ LEVEL_TEXT = ("Machine-checked proof (Coq) over an executable model of DelayMana
 LEVEL_NOTE = ("Trusted: Coq kernel + vm_compute; no axioms. Model hand-written; correspondence validates it against the "
               "working tree (real DelayManager/PeriodicTask on mpf's TimeTravelLoop); asyncio's handle semantics "
               "(a cancelled handle never runs, due handles run no earlier than their deadline) are modelled as the "
-              "acceptance conditions of Fire/Ext steps and validated on every run. The timer device is checked by oracle "
-              "and a small tick model, not by the delay theorems.")
+              "acceptance conditions of Fire/Ext steps and validated on every run. The timer device is not covered.")
 TECHNIQUE = "Coq proof over hand-written executable model + differential correspondence (vm_compute) + direct spec oracle"
 DESIGN_REF = "DESIGN.md section 3, C13"
